@@ -16,7 +16,11 @@ Oracles (implementation alone), evaluated whenever the queue is empty:
   O2  a failed import changes neither database nor rows, a successful one adds exactly the keys of its files (checked at the completion);
   O3  each of the five views shows exactly the series ticked (and visible) at the most recent display request since the last clear, with
       the numbers of the settings at that request (plots: last request with a non-empty selection; table: last request).
+      Every cell of the statistics table must be the formatted number the library returns (a row that equals no library result is reported
+      cell by cell); the catalogue has series whose min / max is exactly 0.0.
   O4  (once per run) `calculate_trace/stats/rfc` honour window, filter, minima and bin arguments (against TimeSeries methods).
+Catalogue: f1.ts (3 series), f2.ts (2), f3.ts (1), run.ts (2) and sub/run.ts (2) -- the same file name at two depths sharing one series
+name, so that list labels ('run.ts/qg') are ambiguous patterns while full keys are not; labels on screen are mapped to keys through the numbers.
 
 Known findings (reported through matchers): K1 overlapping display requests, K2 settings read late, K4 clear while a request is in flight
 (K3 = partial import is fixed in /repo: `TsDB.update` checks all keys first; the matcher is kept and never fires on the current tree).
